@@ -679,10 +679,12 @@ impl VariableClassifier {
                                         self.call_policy,
                                     ));
                                 }
+                                // a goal that is itself qualified (M1:M2:G) is left
+                                // to call/1, which resolves the nesting at run time.
                                 (
                                     Term::Literal(_, Literal::Atom(module_name)),
                                     Term::Clause(_, name, terms),
-                                ) => {
+                                ) if !(name == atom!(":") && terms.len() == 2) => {
                                     if update_chunk_data(self, name, terms.len()) {
                                         build_stack.add_chunk();
                                     }
